@@ -48,7 +48,7 @@ class Runner:
         n = len(case["nodes"])
         t0 = time.time()
         try:
-            rows, cap = X.run_impl(case, capture=(trace if n <= 60 else "count") if trace else False)
+            rows, cap = X.run_impl(case, capture=("count" if (n > 60 or trace == "count") else True) if trace else False)
         except Exception as e:  # noqa: BLE001
             self.engine_s += time.time() - t0
             self.direct_fail.append((case, {"error": repr(e)[:800]}))
@@ -79,7 +79,7 @@ class Runner:
         self.terms.append(X.coq_final_term(case, impl, full, iters if full else None))
         self.meta.append((case, "final"))
         self.weight.append(float(n) * n * ((iters or 3) if full else 0.02) + len(self.terms[-1]) / 50)
-        if trace and n <= 60:
+        if trace is True and n <= 60:
             try:
                 tr = X.canonical_trace(case, cap)
             except Exception as e:  # noqa: BLE001
@@ -145,7 +145,9 @@ def generate(ctx: Ctx, R: Runner):
     sizes = [(89, "sqlite"), (89, "duckdb")] if quick else \
         [(89, "sqlite"), (144, "duckdb"), (233, "sqlite"), (300, "sqlite"), (300, "duckdb")]
     for fam in ("path_bitrev", "path_zigzag", "path_zigzag_min_last", "path_random", "binary_tree"):
-        for n, backend in sizes + ([(144, "sqlite")] if quick and fam in ("path_bitrev", "path_zigzag_min_last") else []):
+        heavy = fam in ("path_bitrev", "path_zigzag_min_last")
+        for n, backend in ([sz for sz in sizes if heavy or sz[1] == "sqlite"] if quick else sizes) + \
+                ([(144, "sqlite")] if quick and heavy else []):
             idkind = rng.choice(["int", "str"])
             thr = rng.choice([None, ["p", 768], ["w", 1]])
             R.add(X.build_case(rng, fam, n, "standalone", backend, idkind, None, thr=thr, cut_rate=0.0),
@@ -155,6 +157,41 @@ def generate(ctx: Ctx, R: Runner):
                        ("forest_small", 3000), ("random_sparse", 3000), ("star", 3000), ("binary_tree", 2047)]:
             R.add(X.build_case(rng, fam, n, "standalone", "duckdb", rng.choice(["int", "str"]), None,
                                thr=rng.choice([None, ["p", 768]]), cut_rate=0.002), full=False)
+
+
+def generate_spark(ctx: Ctx, R: Runner):
+    """Thorough tier: <= 40 Spark runs (one session, parquet lineage breaking under /var/tmp)."""
+    rng = ctx.rng
+    try:
+        X.spark_api()
+    except Exception as e:  # noqa: BLE001
+        ctx.notes.append("Spark session could not be started; Spark cases skipped: " + repr(e)[:300])
+        ctx.cov["skipped_spark"] = True
+        return
+    try:
+        n0 = len(R.meta)
+        for n in (3, 4):
+            R.add(X.union_case(rng, n, list(X.labelled_graphs(n)), "spark", "standalone"))
+        # (an edge table without rows cannot be handed to Spark as a pandas frame: no schema to infer)
+        small = [(n, g) for n in range(2, 5) for g in X.labelled_graphs(n) if g]
+        for n, g in rng.sample(small, 10):
+            R.add(X.exhaustive_case(rng, n, g, "spark"), trace="count")
+        fams = ["path_zigzag", "path_bitrev", "path_zigzag_min_last", "star", "cliques_bridges", "forest_small",
+                "binary_tree", "random_sparse", "cycle", "path_random", "path_reversed_dir", "path_sorted"]
+        for i, fam in enumerate(fams):
+            idkind = ["int", "str", "link"][i % 3]
+            R.add(X.build_case(rng, fam, rng.choice([8, 13]), "standalone", "spark", idkind, None), trace="count")
+        R.add(X.build_case(rng, "path_zigzag", 21, "standalone", "spark", "int", None, thr=["p", 768], cut_rate=0.0), trace="count")
+        R.add(X.build_case(rng, "path_bitrev", 21, "standalone", "spark", "str", None, thr=["w", 1], cut_rate=0.0), trace="count")
+        for lt, idkind in (("dedupe_only", "int"), ("link_and_dedupe", "link"), ("link_only", "link")):
+            for _ in range(20):
+                c = X.build_case(rng, "cliques_bridges", 10, "linker", "spark", idkind, lt)
+                if idkind != "link" or len({x[0] for x in c["nodes"]}) >= 2:
+                    R.add(c)
+                    break
+        ctx.cov["spark_cases"] = len([1 for c, k in R.meta[n0:] if k == "final"])
+    finally:
+        X.spark_stop()
 
 
 def diagnose(ctx: Ctx, case, kind):
@@ -254,6 +291,8 @@ def run(ctx: Ctx):
             R.add(case, trace=len(case["nodes"]) <= 150)
     else:
         generate(ctx, R)
+        if not ctx.quick:
+            generate_spark(ctx, R)
     ctx.log(f"generated {len(R.meta)} comparisons ({R.engine_s:.1f}s in the engines); evaluating the model in Coq")
     reported = 0
     for case, info in R.direct_fail[:5]:
